@@ -33,7 +33,7 @@ class IE(pyenum.IntEnum):
 COLOR = henum.make('Color', {'Red': 'r', 'Green': 'g'})
 OTHER = henum.make('Other', {'Red': 'r', 'X': 'x'})
 
-VALUES = [None, '', '  ', '\n', '\t \n', 'x', ' x ', 'a\nb', True, False, 0, 1, 3, -1, 10 ** 18, 0.0, -0.0, 3.0, 0.005,
+VALUES = [None, '', '  ', '\n', '\t \n', '\xa0', 'x', ' x ', 'a\nb', 'r', 'g', 'Red', 'Color.Red', True, False, 0, 1, 3, -1, 10 ** 18, 0.0, -0.0, 3.0, 0.005,
           0.015, 2.675, 1234.565, -0.004, -2.5, 0.125, 1e22, 1e-9, 123456789.987654321, MyInt(4), MyFloat(2.5), MyStr('s'),
           MyStr(' '), IE.A, COLOR.Red, COLOR.Green, OTHER.Red, (1, 2), [1], {'a': 1}, fractions.Fraction(1, 3),
           decimal.Decimal('1.10'), 1 + 0j, b'x', object]
@@ -158,7 +158,7 @@ def mirror_types():
 
 def run(tier):
     run = runner.Run(PID, tier, 'model_checking',
-                     'every field class x decimal places {0,2,5,default} x a 44-member alphabet of Python values, directly and '
+                     'every field class x decimal places {0,2,5,default} x a 49-member alphabet of Python values, directly and '
                      'through the real Solver; every value stored / read in every E3 return (prompt tree, d<=1 quick, d<=2 thorough); '
                      'mirror-line types of all input-only forms; distinct = (kind,value) cases + E3 outcome classes')
     n = 0
